@@ -868,7 +868,13 @@ func (c *Ctx) Guard(fn *ssa.Function, cond Cond, tgt Target, opt Opt) bool {
 			pass[e] = true
 		}
 		for _, ci := range calls {
-			reached := ReachFrom(ci.Block().Succs, pass)
+			var starts []*ssa.BasicBlock
+			for i, sb := range ci.Block().Succs {
+				if !pass[Edge{ci.Block(), i}] {
+					starts = append(starts, sb)
+				}
+			}
+			reached := ReachFrom(starts, pass)
 			var hit []string
 			for _, ti := range tins {
 				if ti.Block() == ci.Block() && instrIndex(ti) > instrIndex(ci) {
